@@ -10,7 +10,8 @@
 (*       itself named in a challenge                                       *)
 (*   O2  no secret in a message that is not sent over https to a host      *)
 (*       configured for TLS                                                *)
-(*   O3  no secret in log output                                           *)
+(*   O3  no secret in log output, nor in the error values the client       *)
+(*       returns to its caller (which callers print and log)               *)
 (* Mirrors: no code; deviations: none (statement of the property).         *)
 (***************************************************************************)
 O1Allowed(named, o, to) == to = o \/ <<o, to>> \in named
